@@ -229,6 +229,15 @@ Fixpoint zadd_all (z : list (bytes * Z)) (ps : list (Z * bytes)) : list (bytes *
     let '(z', n) := zadd_all (insert m sc z) t in (z', fresh + n)
   end.
 
+(* parse_redis_integer (string_ops.rs): Redis's string2ll - an optional '-', then a digit 1-9
+   followed by digits; "0" is the only spelling of zero; the value must fit i64 *)
+Definition parse_redis_integer (s : bytes) : option Z :=
+  let digits := match s with 45%N :: t => t | _ => s end in
+  let canonical :=
+    bytes_eqb s [48%N]
+    || (match digits with d :: _ => ((49 <=? d) && (d <=? 57))%N | [] => false end && forallb is_digit digits) in
+  if canonical then parse_i64 s else None.
+
 Definition unknown_reply (name : bytes) : resp :=
   RError (sanitize (str "ERR unknown command '" ++ name ++ str "'")).
 
@@ -250,7 +259,7 @@ Definition mexec (s : store) (c : mcmd) : store * resp :=
   | CIncr k =>
     match lookup k s with
     | Some (VStr x) =>
-      match parse_i64 x with
+      match parse_redis_integer x with
       | None => (s, RError (str "ERR value is not an integer or out of range"))
       | Some z =>
         if (z + 1 <? Z.of_N I64_LIM)%Z then (insert k (VStr (show_Z (z + 1))) s, RInt (z + 1))
